@@ -784,6 +784,50 @@ def _t9(repo, L, fmt: Func, prs: Func, w, label):
                 pre = try_fold(t.args[0], default=None)
                 adds_header = any(isinstance(x, ast.Call) and isinstance(x.func, ast.Attribute) and x.func.attr == "add_header_line" for b in s.body for x in [b, *walk_shallow(b)])
                 guards.append((pre, adds_header, s))
+    # (a) by constant propagation: one iteration of the reader's line loop on the line the writer produces for a probe header
+    # text; every feasible path must hand exactly that text to add_header_line
+    from ..finite import UNKNOWN as _UNK, Opaque as _Opq, fold_env as _fold_env, run_paths as _run_paths
+    from ..fold import NotConstant as _NC
+
+    decided = True
+    okp, whyp = True, ""
+    n_pr = 0
+    for text in ("HiC MAP RESOLUTION: 1160.5 bp/texel", "DESCRIPTION: Generated by PretextView Version 0.2.5", "x"):
+        probe = f"{prefix}{text}\n"
+        res = [r for r in _run_paths(lp.body, {lv: probe}, loop_iters=(0,)) if r["path"].status != "raise"]
+        if not res:
+            decided = False
+            break
+        for r in res:
+            if r["unknown_conds"]:
+                decided = False
+                break
+            adds = [c for e in r["path"].events if e.kind == "stmt" for c in [e.node, *walk_shallow(e.node)] if isinstance(c, ast.Call) and isinstance(c.func, ast.Attribute) and c.func.attr == "add_header_line"]
+            if r["path"].status not in ("continue",) and not adds:
+                # the line falls through to the row parser
+                okp, whyp = False, f"the line {probe!r} written for the header text {text!r} is not consumed as a header line by the {label} reader (it reaches the row parser)"
+                break
+            if not adds:
+                okp, whyp = False, f"the {label} reader skips the line {probe!r} that the {label} writer produces for the header text {text!r}: header lines (map resolution, description) are lost on re-parsing, so format → parse does not return the same header"
+                break
+            try:
+                got = _fold_env(adds[0].args[0], r["env"]) if adds[0].args else None
+            except _NC:
+                decided = False
+                break
+            if got is _UNK or isinstance(got, _Opq):
+                decided = False
+                break
+            if got != text:
+                okp, whyp = False, f"the {label} reader stores {got!r} for the line {probe!r}; the writer produced it from {text!r}: the header changes on every round trip"
+                break
+        if not decided or not okp:
+            break
+        n_pr += 1
+    if decided:
+        L.check(okp, "T9", f"{label}:reader-round-trip", f"the line written for a header text is read back as that text ({n_pr} probe texts, constant propagation through the reader's loop body)", whyp, prs.loc(lp), witness={"prefix": prefix})
+        if not okp:
+            return
     # first guard that matches the written prefix decides
     taken = next(((pre, adds, s) for pre, adds, s in guards if isinstance(pre, str) and prefix.startswith(pre)), None)
     L.check(taken is not None and taken[1], "T9", f"{label}:reader-accepts", f"lines starting {prefix!r} are taken as header lines", f"{label} reader {'skips' if taken else 'does not recognise'} lines starting with the writer's prefix {prefix!r}: header lines are lost on re-parsing", prs.loc(lp))
